@@ -33,7 +33,7 @@ def si_constants():
     return ry_j * 1e-6, pc["Avogadro constant"][0]   # Ry -> kg km^2/s^2 ; N_A
 
 
-def build_calculator(cc, ctx, keys, nt, nv, moduli=None):
+def build_calculator(cc, ctx, keys, nt, nv, moduli=None, prefix="C"):
     from cij.util import c_
     calc = object.__new__(cc.Calculator)
     q = PC.Obj()
@@ -50,8 +50,8 @@ def build_calculator(cc, ctx, keys, nt, nv, moduli=None):
     ed.volumes = [vol0]
     calc.__dict__["elast_data"] = ed
     if moduli is None:
-        moduli = {k: symvars("Cs" + k[1:], (nt, nv)) for k in keys}
-    iso = {k: symvars("Ct" + k[1:], (nt, nv)) for k in keys}
+        moduli = {k: symvars(prefix + "s" + k[1:], (nt, nv)) for k in keys}
+    iso = {k: symvars(prefix + "t" + k[1:], (nt, nv)) for k in keys}
     calc.__dict__["modulus_adiabatic"] = {c_(k[1:]): v for k, v in moduli.items()}
     calc.__dict__["modulus_isothermal"] = {c_(k[1:]): v for k, v in iso.items()}
     calc.__dict__["volume_based_result"] = cc.CijVolumeBaseInterface(calc)
@@ -290,6 +290,101 @@ def ordering_general(chk, name, Cm, Sm, got):
     return ok, detail
 
 
+def history_obligation(chk, cc, names, rng):
+    """Several calculators in one process: after a second calculator (other stiffness symbols, other key set) has been built and evaluated,
+    the first one's compliances, Reuss / Hill values and velocities must still be the ones obtained from ITS stiffness (no state shared
+    between Calculator objects).  Both live in one symbolic context, so that their inverse atoms are distinct."""
+    ctx = new_context()
+    ryk, na = si_constants()
+    RYK = ctx.var("RYKM", positive=True, kind="const")
+    NA = ctx.var("NA", positive=True, kind="const")
+    ctx.name_float(ryk, RYK, rtol=1e-8, max_den=64)
+    ctx.name_float(na, NA, rtol=1e-8, max_den=64)
+    proxy = NumpyProxy()
+    proxy.close_mode = "structural"
+
+    def read(calc):
+        vb = calc.volume_based_result
+        return dict(KR=vb.bulk_modulus_reuss, GR=vb.shear_modulus_reuss, KH=vb.bulk_modulus_voigt_reuss_hill, vs=vb.secondary_velocities,
+                    comp=dict(calc._compliances))
+
+    def scenario():
+        with patched((cc, {"numpy": proxy})):
+            a, _, _ = build_calculator(cc, ctx, KEYSETS["orthotropic-9"], 2, 2, prefix="A")
+            a._calculate_compliances()
+            first = read(a)
+            b, _, _ = build_calculator(cc, ctx, KEYSETS["monoclinic-13"], 2, 2, prefix="B")
+            b._calculate_compliances()
+            read(b)
+            again = read(a)
+        return first, again
+    fails = []
+    try:
+        first, again = X.run_single_path(scenario, name="C07:history")
+    except Exception as e:
+        fails.append("raises %s: %s" % (type(e).__name__, e))
+        first = again = None
+    if first is not None:
+        if set(again["comp"]) != set(first["comp"]):
+            fails.append("compliance keys of the first calculator changed after a second calculator was built")
+        else:
+            for k in first["comp"]:
+                if not all(Sym.of(x).same(y) for x, y in zip(numpy.asarray(again["comp"][k], dtype=object).ravel(), numpy.asarray(first["comp"][k], dtype=object).ravel())):
+                    fails.append("compliance %r of the first calculator changed after a second calculator was built" % (k,))
+                    break
+        for q_ in ("KR", "GR", "KH", "vs"):
+            if not all(Z.prove_equal(Sym.of(x), Sym.of(y), name="C07:history:" + q_)[0] == "unsat"
+                       for x, y in zip(numpy.asarray(again[q_], dtype=object).ravel(), numpy.asarray(first[q_], dtype=object).ravel())):
+                fails.append("%s of the first calculator changed after a second calculator was built" % q_)
+    chk.obligation("history: compliances, Reuss / Hill values and velocities of a calculator are unchanged after a second calculator "
+                   "(other key set, other stiffness symbols) was built and read in the same process", "unsat" if not fails else "sat",
+                   kind="history(2 objects)", detail=fails[:3])
+    if fails:
+        replay_history(chk, cc, rng, fails[0])
+
+
+def replay_history(chk, cc, rng, what):
+    """Concrete: two calculators with different stiffness; the first one's Reuss bulk modulus must be that of ITS tensor."""
+    from cij.util import c_
+    def build(scale):
+        calc = object.__new__(cc.Calculator)
+        q = PC.Obj()
+        q.t_array = numpy.array([0.0, 300.0])
+        q.v_array = numpy.array([400.0, 380.0])
+        q.volume_base = PC.Obj()
+        q.volume_base.v_array, q.volume_base.t_array = q.v_array, q.t_array
+        calc.__dict__["qha_calculator"] = q
+        ed = PC.Obj()
+        ed.cellmass = 100.0
+        vol0 = PC.Obj()
+        vol0.static_elastic_modulus = {c_(k[1:]): None for k in ORTHO}
+        ed.volumes = [vol0]
+        calc.__dict__["elast_data"] = ed
+        A = numpy.diag([3.0, 3.2, 3.4, 1.0, 1.1, 1.2]) * 0.01 * scale
+        A[0, 1] = A[1, 0] = 0.011 * scale
+        A[0, 2] = A[2, 0] = 0.012 * scale
+        A[1, 2] = A[2, 1] = 0.013 * scale
+        calc.__dict__["modulus_adiabatic"] = {c_(k[1:]): A[int(k[1]) - 1, int(k[2]) - 1] * numpy.ones((2, 2)) for k in ORTHO}
+        calc.__dict__["modulus_isothermal"] = calc.__dict__["modulus_adiabatic"]
+        calc.__dict__["volume_based_result"] = cc.CijVolumeBaseInterface(calc)
+        calc._calculate_compliances()
+        return calc, A
+    try:
+        a, Aa = build(1.0)
+        kr_before = numpy.array(a.volume_based_result.bulk_modulus_reuss)
+        b, Ab = build(2.5)
+        kr_after = numpy.array(a.volume_based_result.bulk_modulus_reuss)
+        want = 1.0 / numpy.linalg.inv(Aa)[:3, :3].sum()
+    except Exception as e:
+        chk.violation("history:raises", "two calculators in one process: %s: %s" % (type(e).__name__, e), {})
+        return
+    if abs(kr_after[0, 0] / want - 1) > 1e-9:
+        chk.violation("history:shared-state", "K_R of the first calculator is %.6g after a second calculator was built (it was %.6g before; its own "
+                      "tensor gives %.6g): state is shared between Calculator objects" % (kr_after[0, 0], kr_before[0, 0], want), {})
+    else:
+        chk.harness_error("C07 history: '%s' did not reproduce" % what)
+
+
 _replayed = set()
 
 
@@ -466,6 +561,7 @@ def main():
     names = ["orthotropic-9", "triclinic-21"] if tier == "quick" else list(KEYSETS)
     for n in names:
         run_keyset(chk, cc, n, KEYSETS[n], tier, rng)
+    history_obligation(chk, cc, names, rng)
     ordering(chk, cc, tier, rng)
     ryk, na = si_constants()
     from cij.util import units
